@@ -27,7 +27,8 @@ RULE = ('cases = histories (initial memory seed, list of accessor calls) run aga
         'strictly past the right or bottom edge of the sheet/map and at least one map operation touching '
         'rows >= 32; distinct by (seed, operations).'
         ' A twin cart made beforehand with Section.from_bytes(section.to_bytes()) must keep its memory under every edit of the first cart.'
-        ' Rectangle/sprite data is passed as list, tuple, bytearray, generator of rows, list of iterators or reversed(...) (documented type: iterable of iterables).')
+        ' Rectangle/sprite data is passed as list, tuple, bytearray, generator of rows, list of iterators or reversed(...) (documented type: iterable of iterables).'
+        " Rows also come as array('H'); op edit_sprite reads a sprite region, changes one pixel of the returned rows in place and writes the rows back to the same or another sprite id.")
 ASSUMPTIONS = [
     'memory map gfx 0x0000, map 0x2000, gff 0x3000, music 0x3100, sfx 0x3200 (PICO-8 manual); sprite-sheet '
     'pixel (x,y) is the low nibble of gfx[y*64+x//2] for even x and the high nibble for odd x (gfx.py module '
